@@ -96,7 +96,7 @@ func New(id, tier string) *Run {
 	if w := os.Getenv("VERIF_WORKERS"); w != "" {
 		r.Workers, _ = strconv.Atoi(w)
 	}
-	budget := 150 * time.Second
+	budget := 300 * time.Second
 	if tier == "thorough" {
 		budget = 12 * time.Minute
 	}
